@@ -8,6 +8,7 @@ import (
 	"sort"
 	"strings"
 	"testing"
+	"time"
 
 	"github.com/gofiber/fiber/v3"
 	"github.com/gofiber/fiber/v3/client"
@@ -68,13 +69,58 @@ func TestC18Asm(t *testing.T) {
 		return c.JSON(map[string]any{"header": h, "query": q, "cookie": c.Cookies("ck", "\x00absent"), "hasCookie": c.Request().Header.Cookie("ck") != nil,
 			"ua": c.Get("User-Agent"), "referer": c.Get("Referer"), "param": c.Params("id")})
 	})
+	app.Get("/slow", func(c fiber.Ctx) error { time.Sleep(150 * time.Millisecond); return c.SendString("slow") })
 	ln := fasthttputil.NewInmemoryListener()
 	go func() { _ = app.Listener(ln, fiber.ListenConfig{DisableStartupMessage: true}) }()
-	var n, nSkipped, nBoth int
+	var n, nSkipped, nBoth, nTimeout int
 	readCases(t, "VERIF_CASES", func(line []byte) {
 		var cs asmCase
 		if err := json.Unmarshal(line, &cs); err != nil {
 			t.Fatalf("bad case %v", err)
+		}
+		if tl, ok := cs.Cfg["timeout"]; ok && (tl.Client != "none" || tl.Request != "none") {
+			// the timeout, observed on a slow endpoint (150 ms): long = 20 s, short = 30 ms.  A request whose effective timeout is long
+			// is answered (a short one is not asserted: whether 30 ms or the reply comes first is timing); then a request of another
+			// client without any timeout, which may well be served by the pooled objects of the first, is answered too.
+			nTimeout++
+			n++
+			dur := map[string]time.Duration{"plain": 20 * time.Second, "esc": 30 * time.Millisecond}
+			for rep := 0; rep < 3; rep++ {
+				cl := client.New().SetDial(func(string) (net.Conn, error) { return ln.Dial() })
+				if tl.Client != "none" {
+					cl.SetTimeout(dur[tl.Client])
+				}
+				rq := cl.R()
+				if tl.Request != "none" {
+					rq.SetTimeout(dur[tl.Request])
+				}
+				eff := cs.Arrives["timeout"]
+				// first on the fast endpoint, where also a short timeout normally lets the request complete and be released to the pool
+				if respF, errF := cl.R().Get("http://asm.test/p/x"); errF == nil {
+					respF.Close()
+				}
+				if tl.Request != "none" {
+					if respF, errF := cl.R().SetTimeout(dur[tl.Request]).Get("http://asm.test/p/x"); errF == nil {
+						respF.Close()
+					}
+				}
+				resp, err := rq.Get("http://asm.test/slow")
+				if err == nil {
+					resp.Close()
+				}
+				if len(eff) == 1 && eff[0].V == "plain" && err != nil {
+					o.violation(map[string]any{"check": "assembly-timeout", "prop": "C18", "cfg": cs.Cfg, "what": "a request with a long effective timeout was cut off", "observed": err.Error()})
+					return
+				}
+				cl2 := client.New().SetDial(func(string) (net.Conn, error) { return ln.Dial() })
+				resp2, err2 := cl2.R().Get("http://asm.test/slow")
+				if err2 != nil {
+					o.violation(map[string]any{"check": "assembly-timeout", "prop": "C18", "cfg": cs.Cfg, "what": "the next request, which has no timeout configured at any level, was cut off", "observed": err2.Error()})
+					return
+				}
+				resp2.Close()
+			}
+			return
 		}
 		// an empty string given for user agent / referer / path parameter is "not configured" for the client: outside the statement
 		for _, k := range []string{"ua", "referer", "param", "cookie"} { // (an empty cookie value cannot be told from an absent cookie)
@@ -138,6 +184,9 @@ func TestC18Asm(t *testing.T) {
 		got2, err2 := send()
 		exp := map[string]any{}
 		for comp, arr := range cs.Arrives {
+			if comp == "timeout" {
+				continue // observed on the slow endpoint above, not in the request the server sees
+			}
 			var vs []string
 			for _, a := range arr {
 				vs = append(vs, asmValue(comp, a.V, a.Lvl))
@@ -213,5 +262,5 @@ func TestC18Asm(t *testing.T) {
 			o.sample(map[string]any{"cfg": cs.Cfg, "server_saw": g1})
 		}
 	})
-	o.summary(map[string]any{"cases": n, "skipped_empty_precedence_values": nSkipped, "cases_with_both_levels_additive": nBoth, "violations": o.nV})
+	o.summary(map[string]any{"cases": n, "skipped_empty_precedence_values": nSkipped, "cases_with_both_levels_additive": nBoth, "timeout_configurations": nTimeout, "violations": o.nV})
 }
